@@ -666,12 +666,12 @@ Proof.
 Qed.
 
 Theorem agree_pcheck : forall c,
-  agree c = true -> known c = false ->
+  agree c = true ->
   match c with CHist init _ => obs_exact init = true end -> pcheck c = true.
 Proof.
-  intros [init steps] HA HK HI. cbn [agree] in HA. cbn [known] in HK. cbn [pcheck].
+  intros [init steps] HA HI. cbn [agree] in HA. cbn [pcheck].
   apply andb_true_iff in HA as [HW HR]. rewrite HI. cbn [andb].
-  apply (replay_sound tree steps (st_of init)); [|exact HR|exact HK].
+  apply (replay_sound tree steps (st_of init)); [|exact HR|apply fixed_never_known].
   split; [apply wfb_st_of; exact HW|]. apply exactb_iff. exact HI.
 Qed.
 
@@ -745,4 +745,9 @@ Qed.
 Lemma full_refuted : ~ (forall s ops, Inv s -> DynExact (run cur s ops)).
 Proof.
   intros H. specialize (H w_s0 w_ops_k1 inv_s0). apply exactb_iff in H. vm_compute in H. discriminate.
+Qed.
+
+Lemma recfixed_refuted : ~ (forall s ops, Inv s -> DynExact (run recfixed s ops)).
+Proof.
+  intros H. specialize (H w_s0 w_ops_k2 inv_s0). apply exactb_iff in H. vm_compute in H. discriminate.
 Qed.
